@@ -322,6 +322,7 @@ func init() {
 		Explain: "Decides: (LA) the flag that selects StackDense's raw block-copy path is true only if no operand requires an iterator (initial value and every loop path, by implication); (L1) the block-copy calls are guarded by it, and whether denseRepeat consults the operand's layout (it does not: known finding 32); (K1w) doViewStack1/2/4/8 are one algorithm; (E2) in every loop of the stacking/repetition code a cursor advanced at the end of the body is advanced on every continue path; (O2/O3) repeats and shapes passed by the caller are neither kept nor modified; (L1) Hstack stacks along axis 0 only for rank-1 receivers and RepeatReuse accepts a destination only of the computed shape; (LC/LF) a new raw block copy or flat element loop must be layout-guarded; (P2) concat/stack/repeat do not write their operands (denseConcat does: known finding 16). " +
 			"Not decided: block-copy offsets/strides of denseRepeat and denseSimpleStack, the slice-and-assign placement of denseConcat, data-order agreement of stacked operands (finding 19).",
 		Run: func(rc *rules.RC) {
+			rules.SO(rc)
 			rules.IP2(rc)
 			rules.O8(rc)
 			rules.S17(rc)
@@ -386,6 +387,9 @@ func init() {
 		Explain: "Decides: (L0) IsColMajor/IsRowMajor/HasSameOrder are what they claim and prepDataVV/VS/SV/Unary iterate whenever two participants disagree on data order; (L3) raw two-tensor accesses (Copy, Float32/64Engine.Add) and row-major-only kernels (ReduceFirst/ReduceLast) are conditioned on the data order; (L4) exporters into row-major formats consult it; (LB) BLAS gateways derive leading dimensions from each operand's order; (LD) every argument of every BLAS call is the one the operands' and the result's data order and lazy-transpose state require (all 32 layout cases of MatMul, 4 of MatVecMul, Outer, Inner); (T4) stride routines are selected by order in calcStrides and Transpose; (S10) the two stride calculators are one recurrence run in opposite directions; (S11) whoever flips the column-major bit recomputes the strides; (S12) AP.S picks the outermost axis by data order and marks column-major slices non-contiguous; (K3/K1arms) the typed arms of the BLAS gateways agree with each other (an operand swap in one precision is reported); (LC/LF) new raw copies / flat element loops must be layout-guarded and (LF) order-aware. Several of these fail on the pinned tree and are listed as known findings (17-19, 21, 40, 41). " +
 			"Not decided: block-size arithmetic of stack/concat under column-major (seed R2C16b is not caught); StackDense order agreement.",
 		Run: func(rc *rules.RC) {
+			rules.SM(rc)
+			rules.LA(rc)
+			rules.SO(rc)
 			rules.ND(rc, 36)
 			rules.T7(rc)
 			rules.S19(rc)
